@@ -73,6 +73,9 @@ var orderFuncs = map[string]bool{
 // fork tests per transcribed function (a multiset: where in the function they stand does not matter)
 var flagReads map[string][]string
 
+// (function:callee, account and amount expressions) of the balance guard and the transfer in the EVM entry points
+var guardArgs [][2]string
+
 type site struct {
 	file, fn, callee string
 	used             bool
@@ -331,6 +334,13 @@ func main() {
 						if orderCalls[calleeName(x)] {
 							items = append(items, item{x.Pos(), calleeName(x)})
 						}
+						if (calleeName(x) == "CanTransfer" || calleeName(x) == "Transfer") && strings.HasPrefix(key, "src/vm/evm.go:") && len(x.Args) >= 3 {
+							var as []string
+							for _, a := range x.Args[1:] {
+								as = append(as, fullText(a))
+							}
+							guardArgs = append(guardArgs, [2]string{key + ":" + calleeName(x), strings.Join(as, " | ")})
+						}
 						if strings.HasPrefix(calleeName(x), "IsProposal") {
 							flagReads[key] = append(flagReads[key], calleeName(x))
 						}
@@ -436,6 +446,17 @@ func main() {
 		fmt.Fprintf(&sb, "  (%s, [%s])%s\n", q(k), strings.Join(qs, ", "), sep)
 	}
 	sb.WriteString("]\n\n")
+	sb.WriteString("/-- which account and amount expressions the EVM entry points pass to CanTransfer (the guard) and Transfer (the debit / credit) -/\n")
+	sb.WriteString("def guardArgs : List (String × String) := [\n")
+	sort.Slice(guardArgs, func(i, j int) bool { return guardArgs[i][0]+guardArgs[i][1] < guardArgs[j][0]+guardArgs[j][1] })
+	for i, g := range guardArgs {
+		sep := ","
+		if i == len(guardArgs)-1 {
+			sep = ""
+		}
+		fmt.Fprintf(&sb, "  (%s, %s)%s\n", q(g[0]), q(g[1]), sep)
+	}
+	sb.WriteString("]\n\n")
 	sb.WriteString("/-- writes to package-level state inside the files of the ledger path: assignments to, and in-place big.Int/Float\n    mutation of, package-level variables (file, function, what) -/\n")
 	sb.WriteString("def globalWrites : List (String × String × String) := [\n")
 	gw := collectGlobalWrites(root)
@@ -458,6 +479,31 @@ var wantConst = map[string]map[string]bool{
 	"src/middleware/types/transaction.go": {"DefaultGasPrice": true},
 	"src/vm/param.go":                     {"TxGas": true, "TxGasContractCreation": true, "TxDataNonZeroGasEIP2028": true, "TxDataZeroGas": true, "CallCreateDepth": true},
 	"src/executor/miner_node_executor.go": {"ten": true},
+}
+
+// fullText renders an expression with its selectors (`caller.Address()`, `evm.StateDB`).
+func fullText(e ast.Expr) string {
+	switch v := e.(type) {
+	case *ast.BasicLit:
+		return v.Value
+	case *ast.Ident:
+		return v.Name
+	case *ast.SelectorExpr:
+		return fullText(v.X) + "." + v.Sel.Name
+	case *ast.CallExpr:
+		var as []string
+		for _, a := range v.Args {
+			as = append(as, fullText(a))
+		}
+		return fullText(v.Fun) + "(" + strings.Join(as, ",") + ")"
+	case *ast.StarExpr:
+		return "*" + fullText(v.X)
+	case *ast.UnaryExpr:
+		return v.Op.String() + fullText(v.X)
+	case *ast.ParenExpr:
+		return "(" + fullText(v.X) + ")"
+	}
+	return "?"
 }
 
 func exprText(e ast.Expr) string {
